@@ -92,3 +92,8 @@ def shape_key(case, results):
                 key += "-" + "-".join(f for f in r.flags if f.startswith("merge-") or f.startswith("add-missing"))
             return key
     return "none"
+
+SOURCE_TIE = "Source-level tie by proof (Tie/Track, Props/C11s): Track::add_observation and Track::merge as regenerated from the source equal the model's functions for every family of callbacks and whatever a failing callback leaves in the places it was given; atomicity and the history rule are restated for the generated functions."
+LEVEL_TEXT = LEVEL_TEXT + " " + SOURCE_TIE
+TRUSTED_BASE = TRUSTED_BASE + ["translator/kernels.py + rustexpr.py (reader of the Rust subset, per-function tables) for the functions named in SOURCE_TIE; generated definitions are proof obligations (Tie modules) on every run"]
+TECHNIQUE = TECHNIQUE + "; model regenerated from the source by a translator for the functions of SOURCE_TIE, tied by proof"
